@@ -160,8 +160,8 @@ def gen_cfg(rng, combo=None, finite=None, n_max=12, allow_not_random=True, u=Non
         kw["lam"] = (1 / u) * rng.choice((2.0 ** -10, 0.25, 0.5, 1.0, 1.0, 4.0, 16.0))
         c0 = rng.choice((0.125, 0.5, 0.75, 1 - EPS))
         kw["c_grapa_0"] = c0
-        kw["c_grapa_max"] = rng.choice((c0, 1 - EPS))
-        kw["c_grapa_grow"] = rng.choice((0, 0, 1, 10))
+        kw["c_grapa_max"] = rng.choice((c0, 1 - EPS, c0 / 2, c0 / 4))   # also schedules that shrink the clipping scale
+        kw["c_grapa_grow"] = rng.choice((0, 0, 1, 10, 0.5))
     cfg = {"test": test, "estim": estim, "bet": bet, "u": u, "N": N, "t": t,
            "random_order": random_order, "kw": kw}
     if allow_default_eta and "eta" in kw and rng.random() < 0.2:
@@ -393,6 +393,26 @@ def expand_long(desc, cfg):
     if pat == "u_then_0":
         return [u] * (n // 2) + [0.0] * (n - n // 2)
     return [0.0] * (n // 2) + [u] * (n - n // 2)
+
+
+def gen_exact_hit_then_nondyadic(rng, cfg):
+    """Finite population, u >= 1: 0/1 draws whose running total reaches N t EXACTLY (null conditional mean exactly 0)
+    when 3 or 4 cards are left, then a 0, then a value that is not a dyadic rational, then a 0.  Rounding in any
+    re-association of the running totals shows up here (a mean that should be < 0 comes out as +1e-17)."""
+    if cfg["N"] == "inf" or cfg["u"] < 1:
+        return None
+    N = rng.choice((8, 16, 32, 64))
+    cfg["N"], cfg["t"] = N, 0.5
+    cfg.pop("N_warm", None)
+    if "eta" in cfg["kw"] and not 0.5 < cfg["kw"]["eta"] < cfg["u"]:
+        cfg["kw"]["eta"] = (0.5 + cfg["u"]) / 2
+    k = N - rng.choice((3, 4))
+    ones, zeros = N // 2, k - N // 2
+    body = [1.0] * (ones - 1) + [0.0] * zeros
+    rng.shuffle(body)
+    v = rng.choice((0.4, 0.1, 0.7, 0.3, 0.55, 0.95, 0.15))
+    x = body + [1.0, 0.0, v, 0.0]
+    return x[: N]
 
 
 def in_domain(cfg, x):
